@@ -220,6 +220,15 @@ class Gen:
             ghost[g] = self.value(kind)
         self.fill()
         self.apply_param_hints(params)
+        self.seams = None
+        if self.job.get("seams"):
+            r = self.rnd
+            self.seams = {k: True for k in self.job["seams"]}
+            self.seams["journal"] = [{"match": r.random() < 0.5, "status": r.choice(["PASS", "FAIL", "ERROR", "WARN", "SKIP"]),
+                                      "time": r.choice(["0.5", "1.0", "3.0", "10.0"]), "uid": r.choice(["1", "1r1", "2"]),
+                                      "name": r.choice(self.lits)} for _ in range(r.choice([0, 1, 2, 3]))]
+            self.seams["on_run"] = r.choice([0, 1, 2])
+            self.seams["on_sleep"] = r.choice([0, 1])
         stubs = {}
         for key, (owner, kind, how) in self.job.get("stubs", {}).items():
             table = {}
@@ -250,7 +259,7 @@ def main():
         g = Gen(job, rnd)
         try:
             inputs, stubs = g.inputs()
-            w = dict(base, inputs=inputs, stubs=stubs)
+            w = dict(base, inputs=inputs, stubs=stubs, seams=g.seams)
             key = hash(json.dumps(w["inputs"], sort_keys=True, default=str))
             v = builders.replay(copy.deepcopy(w), repo)
         except Exception:
